@@ -12,7 +12,7 @@ sys.path.insert(0, os.path.join(os.path.dirname(os.path.dirname(os.path.abspath(
 
 HEADER = ("From Coq Require Import PrimFloat.\nFrom Qib Require Import Gates.ElemCheck.\nFrom Run Require Import GenGates.\n"
           "Definition bad_cases := bad_cases_db gen_db.\n")
-LIB = ["Gates/ElemCheck", "Gates/ElemReal", "Gates/ElemSpec"]
+LIB = ["Gates/ElemCheck", "Gates/ElemReal", "Gates/ElemSpec", "Gates/ElemDeriv"]
 ORACLE_TOL = 1e-9
 
 TRUSTED = ("%s: elementary gates: closed forms, atom specifications, is_hermitian constants, num_wires, inverse() and "
